@@ -15,8 +15,10 @@ REPO_SRC = os.environ.get("MBH_REPO_SRC", "/repo/src")
 SCHEMAS = os.path.join(REPO_SRC, "wormhole_mailbox_server", "db-schemas")
 PY = sys.executable
 
-# the objects a complete database of each kind/version has (pinned here, not
-# derived from the code under test)
+# the objects a complete database of each kind/version must at least have (pinned here, not derived
+# from the code under test).  What a complete database of the tree under test has EXACTLY is what its
+# own schema script creates (full_names / fresh_schema_sql): a tree may add an index to its scripts
+# without ceasing to create complete databases, but it may not lose one of these.
 OBJECTS = {
     ("channel", 1): {"version", "nameplates", "nameplates_idx", "nameplates_mailbox_idx",
                      "nameplates_request_idx", "nameplate_sides", "mailboxes", "mailboxes_idx",
@@ -46,6 +48,22 @@ def fresh_schema_sql(kind, v):
     return r
 
 
+_full_cache = {}
+
+
+def full_names(kind, v):
+    """names of the objects the tree's schema script for (kind, v) creates; the pinned core if the
+    script lacks some of it (then nothing the code creates counts as complete)"""
+    if (kind, v) not in _full_cache:
+        try:
+            names = {n for (_, n, _) in fresh_schema_sql(kind, v)}
+        except Exception:
+            names = set()
+        core = OBJECTS[(kind, v)]
+        _full_cache[(kind, v)] = names if core <= names else set(core)
+    return _full_cache[(kind, v)]
+
+
 def abstract_file(path, kind, s0):
     if not os.path.exists(path):
         return {"t": "absent"}
@@ -72,17 +90,17 @@ def abstract_file(path, kind, s0):
     except sqlite3.DatabaseError:
         return {"t": "junk", "sha": sha}
     schema = "other"
-    full = OBJECTS[(kind, TARGET[kind])]
+    full = full_names(kind, TARGET[kind])
     if ver in (None, []) and names < full:
         # a database under construction: the first len(names) CREATE statements
         if ver is None:
             ver = []
         return {"t": "db", "schema": "part:%d" % len(names), "ver": [], "data": "nodata", "sha": sha}
-    for (k, v), objs in OBJECTS.items():
-        if k == kind and names == objs:
+    for (k, v) in OBJECTS:
+        if k == kind and names == full_names(k, v) and OBJECTS[(k, v)] <= names:
             schema = "full:%d" % v if sqls == fresh_schema_sql(k, v) else "other"
-    if schema == "other" and kind == "usage" and OBJECTS[("usage", 1)] <= names < OBJECTS[("usage", 2)]:
-        extra = len(names - OBJECTS[("usage", 1)])
+    if schema == "other" and kind == "usage" and full_names("usage", 1) <= names < full_names("usage", 2):
+        extra = len(names - full_names("usage", 1))
         schema = "upg:%d" % extra
     if ver is None:
         schema = schema if schema.startswith("part:") else "noversion"
@@ -294,7 +312,7 @@ def check_lines(lines, kind, workdir, tag, atomic_upgrade=True):
         for ln in lines:
             f.write(json.dumps({k: ln[k] for k in ("sid", "i", "entry", "pre", "post", "result", "first")},
                                separators=(",", ":")) + "\n")
-    n_create = len(OBJECTS[(kind, TARGET[kind])])
+    n_create = len(full_names(kind, TARGET[kind]))
     with open(os.path.join(workdir, "FT_%s.tla" % tag), "w") as f:
         f.write("---- MODULE FT_%s ----\nEXTENDS FilesTrace\n====\n" % tag)
     with open(os.path.join(workdir, "FT_%s.cfg" % tag), "w") as f:
